@@ -8,7 +8,8 @@
 From Coq Require Import List ZArith NArith Bool.
 Import ListNotations.
 From DD Require Import Base.PyStr Base.Value Path.PathModel Path.PathLex Path.PathProofs Path.PathTight
-  Path.PathCacheModel Path.PathCacheProofs Path.PathActsModel Path.PathActsProofs.
+  Path.PathCacheModel Path.PathCacheProofs Path.PathActsModel Path.PathActsProofs
+  Path.PathLit Path.PathXModel Path.PathXProofs.
 
 (* --- parse_path returns exactly the key sequence with the original key types ---------- *)
 (* full strength (every key sequence) is false of the faithful model: *)
@@ -280,6 +281,58 @@ Print Assumptions C09_stringify_inverts_parse_actions_partial.
 Print Assumptions C09_stringify_path_gen_keys.
 Print Assumptions C09_stringify_default_root_partial.
 Print Assumptions C09_stringify_inverts_parse_defaults_refuted.
+
+(* ------------------------------------------------------------------ *)
+(** EVERY float and EVERY int as a key (Path/PathLit.v, Path/PathXModel.v).
+    Keys are [pval]s: None, bool, int, float given as sign and magnitude m * 2^e (any binary64 value,
+    -0.0, inf) or nan, str, bytes; [renderx] is DiffLevel.path() with the self check of stringify_param
+    (Some (Some p) = the string p, Some None = path() returns None, None = it raises), float repr is the
+    shortest-digits algorithm with Python's fixed / exponent notation; [elementsx] is the parser with
+    literal_eval modelled on EVERY text (tokenizer, expression grammar, _convert, decimal -> binary64).
+    Guard [xpath_ok]: C09's guard on str / bytes keys, ints of at most 4300 digits, floats that are
+    finite and whose repr text reads back as the same float ([float_text_ok]: decidable, checked on
+    every float of every run; for all floats it would need "17 significant digits suffice"). *)
+Theorem C09_all_keys_elements_partial :
+  forall ks : list xkey, xpath_ok ks = true ->
+    exists p, renderx ks = Some (Some p) /\ elementsx p = XDone (xels_of ks).
+Proof. exact elementsx_renderx. Qed.
+
+Theorem C09_all_keys_stringify_inverts_partial :
+  forall ks : list xkey, xpath_ok ks = true ->
+    exists p, renderx ks = Some (Some p) /\ elementsx p = XDone (xels_of ks) /\ stringify_xels (xels_of ks) = Some p.
+Proof. exact stringify_inverts_elementsx. Qed.
+
+Theorem C09_all_keys_render_inj_partial :
+  forall (ks1 ks2 : list xkey) (p : pystr), xpath_ok ks1 = true -> xpath_ok ks2 = true ->
+    renderx ks1 = Some (Some p) -> renderx ks2 = Some (Some p) -> xels_of ks1 = xels_of ks2.
+Proof. exact renderx_inj. Qed.
+
+(* outside the guard: inf, -inf and nan are floats and legal dict keys, but a location below such a key has
+   NO path string (path() returns None; finding K7) *)
+Theorem C09_nonfinite_float_key_refuted :
+  (forall neg : bool, renderx [XKey (PvFloat neg FInf)] = Some None) /\ renderx [XNan] = Some None.
+Proof. split; [exact inf_key_no_path|exact nan_key_no_path]. Qed.
+Theorem C09_no_path_below_unrepresentable_key :
+  forall (k : xkey) (r : list xkey), krepr_x k = KNoPath -> renderx (k :: r) = Some None.
+Proof. exact no_path_below. Qed.
+
+(* outside the guard: for EVERY int key of more than 4300 digits path() raises (repr; finding K8) *)
+Theorem C09_huge_int_key_raises :
+  forall (z : Z) (r : list xkey), (10 ^ 4300 <= Z.abs z)%Z -> renderx (XKey (PvInt z) :: r) = None.
+Proof. exact huge_int_key_raises. Qed.
+
+(* the guard is satisfiable by floats in every notation:
+   root[1e+16][1e-05][0.1][-0.0][1.7976931348623157e+308][5e-324][1.2345678901234568e+17][0.30000000000000004][10^29]["a'b]["][3] *)
+Example C09_all_keys_guard_satisfiable :
+  xpath_ok exotic_path = true /\ List.length exotic_path = 11%nat.
+Proof. split; [exact exotic_path_ok|reflexivity]. Qed.
+
+Print Assumptions C09_all_keys_elements_partial.
+Print Assumptions C09_all_keys_stringify_inverts_partial.
+Print Assumptions C09_all_keys_render_inj_partial.
+Print Assumptions C09_nonfinite_float_key_refuted.
+Print Assumptions C09_no_path_below_unrepresentable_key.
+Print Assumptions C09_huge_int_key_raises.
 
 (* ------------------------------------------------------------------ *)
 (** EXTENSION beyond the property's stated domain: paths through INSTANCES OF CLASSES.
